@@ -20,8 +20,8 @@ typedef int R;
 extern "C" {
 extern int g_rm_calls, g_rm_arg, g_rm_set, g_add_r, g_add_c, g_eps, g_sv, g_newnum;
 extern const int* gp_cnt;
-/* alias pointers for loop invariants (README point 6): own/cross file of the operation, the SVector objects of the cross file */
-extern int *gp_om, *gp_os, *gp_cm, *gp_cs, *gp_perm; extern void* gp_xpool;
+/* alias pointers for loop invariants (README point 6): own/cross file of the operation */
+extern int *gp_om, *gp_os, *gp_cm, *gp_cs, *gp_perm;
 extern int g_pos_i, g_pos_n; extern int* gp_pe;
 }
 /* SVSet type invariant "size <= max" of the vector a view is created for.  Only the instances whose loops carry loop
@@ -95,13 +95,21 @@ struct LPShared
    SVectorBase<R>* rpool; SVectorBase<R>* cpool;   /* the SVector objects (one per vector number), filled on demand */
 };
 
-static inline SVectorBase<R>& view(SVectorBase<R>* pool, int* mem, int* size, int num, int i)
+/* The SVector objects of a file (one per vector number, as in the real SVSet) are set up by the wrapper before the body runs:
+ * object i points at the cells [i*MATW, i*MATW+MATW) and at size[i]; view() hands out object i (bounds assertion added). */
+static inline void init_views(SVectorBase<R>* pool, int* mem, int* size)
+{
+#define INIT_VIEW(i) pool[i].m_elem = (Nonzero<R>*)mem + (i) * MATW; pool[i].usedp = size + (i); pool[i].memsize = MATW;
+   INIT_VIEW(0) INIT_VIEW(1) INIT_VIEW(2) INIT_VIEW(3)
+#if CAP != 4
+#error "init_views is written out for CAP == 4"
+#endif
+}
+static inline SVectorBase<R>& view(SVectorBase<R>* pool, int* size, int num, int i)
 {
    __CPROVER_assert(0 <= i && i < num, "vector number in bounds");
    VIEW_SIZE_INVARIANT(size[i]);
-   SVectorBase<R>& v = pool[i];
-   v.m_elem = (Nonzero<R>*)mem + i * MATW; v.usedp = size + i; v.memsize = MATW;
-   return v;
+   return pool[i];
 }
 
 /* SVSetBase::remove(int n) + DataSet::remove(int): vector number n becomes the vector that had the last number (C19, unit dataset) */
@@ -137,22 +145,22 @@ template <class T> struct LPRowSetBase
 {
    LPShared* d;
    int num() const { return *d->nr; }
-   SVectorBase<T>& rowVector_w(int i) { return view(d->rpool, d->rmem, d->rsize, *d->nr, i); }
-   const SVectorBase<T>& rowVector(int i) const { return view(d->rpool, d->rmem, d->rsize, *d->nr, i); }
+   SVectorBase<T>& rowVector_w(int i) { return view(d->rpool, d->rsize, *d->nr, i); }
+   const SVectorBase<T>& rowVector(int i) const { return view(d->rpool, d->rsize, *d->nr, i); }
    void remove(int j) { g_rm_calls++; g_rm_arg = j; g_rm_set = 0; remove_vec(d->rmem, d->rsize, d->nr, j); }
    void remove(int perm[]) { g_rm_calls++; g_rm_set = 0; remove_perm(d->nr, perm); }
    /* real: SVSetBase<R>::add2(rowVector_w(i), n, idx, val) = xtend(svec, size+n) [model: fixed capacity, asserted by add] + svec.add(n, idx, val) */
-   void add2(int i, int n, const int idx[], const T val[]) { g_add_r++; view(d->rpool, d->rmem, d->rsize, *d->nr, i).add(n, idx, val); }
+   void add2(int i, int n, const int idx[], const T val[]) { g_add_r++; view(d->rpool, d->rsize, *d->nr, i).add(n, idx, val); }
 };
 template <class T> struct LPColSetBase
 {
    LPShared* d;
    int num() const { return *d->nc; }
-   SVectorBase<T>& colVector_w(int i) { return view(d->cpool, d->cmem, d->csize, *d->nc, i); }
-   const SVectorBase<T>& colVector(int i) const { return view(d->cpool, d->cmem, d->csize, *d->nc, i); }
+   SVectorBase<T>& colVector_w(int i) { return view(d->cpool, d->csize, *d->nc, i); }
+   const SVectorBase<T>& colVector(int i) const { return view(d->cpool, d->csize, *d->nc, i); }
    void remove(int j) { g_rm_calls++; g_rm_arg = j; g_rm_set = 1; remove_vec(d->cmem, d->csize, d->nc, j); }
    void remove(int perm[]) { g_rm_calls++; g_rm_set = 1; remove_perm(d->nc, perm); }
-   void add2(int i, int n, const int idx[], const T val[]) { g_add_c++; view(d->cpool, d->cmem, d->csize, *d->nc, i).add(n, idx, val); }
+   void add2(int i, int n, const int idx[], const T val[]) { g_add_c++; view(d->cpool, d->csize, *d->nc, i).add(n, idx, val); }
 };
 
 static inline R spxAbs(R a) { return a < 0 ? -a : a; }
@@ -175,10 +183,10 @@ struct LP : LPRowSetBase<R>, LPColSetBase<R>
    /* SPxLPBase's own one-line forwarders (spxlpbase.h: `return LPRowSetBase<R>::rowVector(i);` etc.) */
    int nRows() const { return *sh.nr; }
    int nCols() const { return *sh.nc; }
-   const SVectorBase<R>& rowVector(int i) const { return view(sh.rpool, sh.rmem, sh.rsize, *sh.nr, i); }
-   const SVectorBase<R>& colVector(int i) const { return view(sh.cpool, sh.cmem, sh.csize, *sh.nc, i); }
-   SVectorBase<R>& rowVector_w(int i) { return view(sh.rpool, sh.rmem, sh.rsize, *sh.nr, i); }
-   SVectorBase<R>& colVector_w(int i) { return view(sh.cpool, sh.cmem, sh.csize, *sh.nc, i); }
+   const SVectorBase<R>& rowVector(int i) const { return view(sh.rpool, sh.rsize, *sh.nr, i); }
+   const SVectorBase<R>& colVector(int i) const { return view(sh.cpool, sh.csize, *sh.nc, i); }
+   SVectorBase<R>& rowVector_w(int i) { return view(sh.rpool, sh.rsize, *sh.nr, i); }
+   SVectorBase<R>& colVector_w(int i) { return view(sh.cpool, sh.csize, *sh.nc, i); }
 };
 
 struct H : LP
@@ -203,6 +211,8 @@ static inline void setup(H& h, Scaler& sc, SVectorBase<R>* rpool, SVectorBase<R>
    h.bind(); h._isScaled = nondet_bool(); h.lp_scaler = &sc;
    h.sh.rmem = rmem; h.sh.rsize = rsize; h.sh.nr = nr; h.sh.cmem = cmem; h.sh.csize = csize; h.sh.nc = nc;
    h.sh.rpool = rpool; h.sh.cpool = cpool;
+   if(rmem) init_views(rpool, rmem, rsize);
+   if(cmem) init_views(cpool, cmem, csize);
 }
 
 #if defined(INST_RM)
@@ -218,11 +228,6 @@ extern "C" void w_rm(int* om, int* os, int* cm, int* cs, int* nown, int* ncross,
 #endif
    h.j_ = j;
    gp_om = om; gp_os = os; gp_cm = cm; gp_cs = cs;
-#ifdef REMROW
-   gp_xpool = cpool;
-#else
-   gp_xpool = rpool;
-#endif
    h.body();
 }
 #elif defined(INST_CE)
